@@ -1,6 +1,11 @@
 import astload
 import eigencw
 import hooks as nvhooks
+import os
+import sys
+sys.path.insert(0, os.path.dirname(os.path.abspath(__file__)))      # other specs (C11) load this module by path: its siblings must be importable
+import rss_smt          # noqa: E402
+import cluster_spec     # noqa: E402
 from core import Fn, Target, VC
 
 DRV = 'drivers/inst_wlearner.cpp'
@@ -594,6 +599,13 @@ def accumulator_lemmas():
     return out, bounded
 
 
+# (tiers, cbmc flags) of the ghost-cut targets, from measured cbmc CPU seconds (see the commit message)
+# measured (cbmc + extraction CPU seconds on a loaded machine, minisat / cadical): plain stump 37, hinge 74; stump visit 61 / 83, stump best 45 / 78,
+# hinge visit 105 / 123, hinge best 82 / 114: minisat everywhere, the hinge pair in the thorough tier
+OPT_PLAN = {('stump', 'visit'): (('quick', 'thorough'), []), ('stump', 'best'): (('quick', 'thorough'), []),
+            ('hinge', 'visit'): (('thorough',), []), ('hinge', 'best'): (('thorough',), [])}
+
+
 def targs(*want):
     return lambda d: astload.template_args(d) == list(want)
 
@@ -659,6 +671,12 @@ def build(tier):
         f = fit_fns(cls)
         targets.append(Target(f'{cls}_cache_clear', [f['clear']], 'specs/C10/fit.h', defines=['NV_FIT_CLEAR']))
         targets.append(Target(f'{cls}_fit_sweep', [f['sweep']], 'specs/C10/fit.h'))
+        # the ghost-cut clauses ("every boundary is evaluated exactly once" / "the final score is <= every candidate's") as separate targets
+        # over the same extracted sweep and the same prelude (defines select the clause set); tier / solver per measured cost (OPT_PLAN)
+        for part, define in (('visit', 'NV_OPT_VISIT'), ('best', 'NV_OPT_BEST')):
+            tiers, flags = OPT_PLAN[(cls, part)]
+            if tier in tiers:
+                targets.append(Target(f'{cls}_fit_sweep_opt_{part}', [fit_fns(cls)['sweep']], 'specs/C10/fit.h', defines=[define], cbmc_flags=flags, timeout=900 if tiers == ('thorough',) else None))
     AFF = 'src/wlearner/affine.cpp'
     targets.append(Target('affine_fit_feature', [affine_fit_fn()], 'specs/C10/fit_affine.h',
                           defines=[lambda: f'bin_affine={file_constant(AFF, "bin_affine")}', lambda: f'bin_missed={file_constant(AFF, "bin_missed")}']))
@@ -677,6 +695,8 @@ def build(tier):
                                            acc_fn('acc_update', AFFC, 'update', 'accumulator_t::update', select=npar(2))], AH))
     for nm, rt in (('rss_zero', 'double'), ('rss_constant', 'double'), ('fit_constant', 'struct nv_ev')):
         targets.append(Target(f'acc_{nm}', [acc_fn(f'acc_{nm}', ACC_CPP, nm, f'accumulator_t::{nm}', ret=rt)], AH))
+    if tier == 'thorough':      # 47-54 s of cbmc CPU (cadical; minisat > 240 s): too heavy for the quick tier, one target (splitting the ghost bins saved 7 s only)
+        targets.append(cluster_spec.cluster_target())
     MH = 'specs/C10/trymerge.h'
     t = try_merge_fns()
     targets.append(Target('base_try_merge', [t['base']], MH))
@@ -686,7 +706,7 @@ def build(tier):
     t = try_merge_fns()
     targets.append(Target('affine_try_merge', [t['affine'], t['helper'], t['feature']], MH))
     return {
-        'targets': targets, 'vcs': hinge_lemmas() + accumulator_lemmas()[0], 'bounded': accumulator_lemmas()[1],
+        'targets': targets, 'vcs': hinge_lemmas() + accumulator_lemmas()[0] + rss_smt.build_vcs(), 'bounded': accumulator_lemmas()[1],
         'decided': [
             'loop_scalar / loop_sclass / loop_mclass: op(i, value) is called only for 0 <= i < samples.size(), in increasing i, only for given values (finite / >= 0 / first label >= 0), with the value of sample i, and for every given value exactly once (ghost sample position); the enclosing functions hand the given samples and feature to select_iterator_t::loop once, with the callback overload of the right value kind',
             'stump: do_predict adds tables[value < threshold ? 0 : 1] to outputs row i exactly once for a given value and nothing for a missing one; split / do_split assign group (value < threshold ? 0 : 1) to samples(i) under the same rule with the same feature and the member threshold; cluster has dataset.samples() x 2',
@@ -706,13 +726,18 @@ def build(tier):
             'table cache_t::score_dense / score_kbest: what is stored for a better candidate is one consistent table (score of that evaluation, feature, K tables, hashes / hash2tables / coefficients of the tracked row: dense row = bin, k-best row fv = the bin sorted at position fv) whose coefficients are the optimal constants r1(bin, o) / x0(bin) of the bin the row stands for; make_score gets n = m_samples',
             'split of stump / hinge / affine / tables: for the position i of the given list with a non-missing (active) value, cluster.assign is called exactly once with THAT sample samples(i) and the group the predictor uses for its value, nothing is assigned for a missing one; robust to the capture lists (stubs, prototypes and closure structs are generated from the lambdas as they are in the source)',
             'wlearner::make_score (index discipline only): rss is clamped below by 1e3 * epsilon and passed with (k, n) unchanged and in order to exactly the formula the criterion names (AIC / AICc / BIC uninterpreted), the plain criterion returns the clamped rss',
+            'minimum RSS of ONE candidate, over the reals, on the real scoring code walked at a generic output coefficient (symbolic number of outputs; specs/C10/rss_smt.py, back end B): stump cache_t::score (with x0_/r1_/r2_neg/pos, output_neg/pos and the file-local ::score walked at their calls): the rss handed to make_score is SUM_o [min-RSS(left) + min-RSS(right)] + missing_rss with min-RSS = r2 - r1^2/x0 per side and output, the stored coefficients output_neg / output_pos are the group means r1/x0, n = total + missing count; hinge cache_t::score_neg / score_pos (with beta_neg/pos, beta0, the twelve moment accessors and ::beta / ::score walked): rss = SUM_o [(r2 - B^2/D)(active side) + r2(inactive side)] + missing_rss with B = rx - t r1, D = x2 - 2 t x1 + t^2 x0, the stored slope is B/D; table cache_t::score(bin) = SUM_o (r2 - r1^2/x0); every division executed is defined under x0 > 0 resp. D > 0; lemmas: for every constant c resp. slope b the RSS r2 - 2 c r1 + x0 c^2 resp. r2 - 2 b B + b^2 D is >= that minimum, attained exactly at r1/x0 resp. B/D (unique for the constant); induction over the samples entered: these quadratic forms ARE the residual sums of squares SUM (res - c)^2 resp. SUM (res - b (x - t))^2 of the entries accumulated by accumulator_t::update (base: cleared accumulator; step: one update, as proved in accum.h), D = SUM (x - t)^2, and the moments of total minus left are the moments of the entries not in left',
+            'minimum over the candidates of a feature (ghost cut; separate targets over the same extracted sweeps: stump_fit_sweep_opt_visit / _opt_best in the quick tier, hinge_fit_sweep_opt_visit / _opt_best in the THOROUGH tier only, the plain *_fit_sweep targets carry none of these clauses): EVERY boundary between two different consecutive sorted values is evaluated exactly once (hinge: once per direction) and no other cut is; the score the cache ends with is <= every finite score evaluated there, <= the score it started with (so it stays the best over the features of the thread), is a number (not NaN), and is the old score or the score of a stored candidate',
+            'score_dense: the rss is accumulated from exactly one reduction per bin, the one of the ghost bin being SUM_o (r2 - r1^2/x0) of that bin',
+            'THOROUGH tier only (target acc_cluster, ~50 s): accumulator_t::cluster() (k-split tables; symbolic number of bins >= 1; ghost bins b, b2, ghost levels L < L2): rows are built in order, row t as a copy of the finished row t - 1, and a finished row is never read or written again; cluster_id(L, b) is in [0, bins - L) -- every bin belongs to exactly one cluster of its level, below the level\'s number of clusters bins - L -- and cluster_id(0, b) == b; levels are nested: two bins in one cluster at level L are in one cluster at level L2; the merged pair satisfies 0 <= c1 < c2 < #clusters whatever the float distances are; every access of cluster_x0 / r1 / r2 / rx / id has both leading indices in [0, bins); all seven loops terminate (decreases clauses)',
             'dtree do_predict: through wlearner_t::split (compatibility check, then do_split) the row i of outputs receives exactly one update, the m_tables row of the group split() reports for samples(i), and none if there is no group; depth 1: the stump_do_predict contract',
         ],
         'not_decided': [
-            'minimum RSS over the hypothesis class (all do_fit functions, accumulators, values of the criteria): optimisation over float moment sums; accumulator_t (moment sums, cluster()) is not under contract',
+            'minimum RSS over the hypothesis class, what remains open: IEEE arithmetic (all optimality statements are over the reals: the float moment sums and the float comparison of scores are not the real ones); the composition of the pieces into one statement about do_fit (per candidate: rss_smt + accum.h / fit.h accumulators; over the candidates of a feature: fit.h .best; over the features of a thread: the cache keeps its best score across sweeps (.best: final <= old); over the threads: min_reduce ASSUMED to return the smallest score) is an argument in prose, not a machine-checked theorem; affine least squares (cache_t::score / w / b of affine.cpp), k-best / k-split selection; that D > 0 / x0 > 0 in the hinge when all active values equal the threshold (then the code divides 0 by 0 and isfinite rejects the candidate: not modelled over the reals)',
+            'hinge score_neg / score_pos hand make_score n = the ACTIVE-side count + missing count, not the number of samples (the stump hands total + missing): irrelevant for the RSS criterion of the property, changes AIC / AICc / BIC of hinge candidates (observed while proving rss/stump/count; recorded, not a C10 violation)',
             'termination of the breadth-first walks of dtree do_split / do_fit; the scores, samples and stopping rule of dtree do_fit (stump fits are opaque)',
             'the count in missing_cnt (a float sum of 1.0); the values of scores / coefficients (uninterpreted)',
-            'accumulator_t::cluster() and table cache_t::score_ksplit (k-split clustering over 2-D / 5-D tensors), cache_t::update (label -> bin), the float accumulation of rss inside score_dense / score_kbest (which gains are added is not tracked, only what is stored)',
+            'accumulator_t::cluster(): that level L uses ALL indices below bins - L (surjectivity), the ghost membership of the moment sums (the cell (L, c) of cluster_x0 / r1 / r2 holds the moments of exactly the bins with cluster_id(L, .) == c: the model is written up in specs/C10/cluster.h but only index discipline is checked on those tensors), which pair is merged (float distances), bins == 0 (a feature whose values are all missing reaches cluster_x0.array(0) of an empty tensor: assert-only, the row is empty); table cache_t::score_ksplit (consumes cluster(): hash2tables = cluster_id row ic must address the bins - ic rows of rx.slice(0, ksplit): follows from the range clause above but score_ksplit itself is not under contract), cache_t::update (label -> bin), the float accumulation of rss inside score_kbest (which gains are added is not tracked, only what is stored); in score_dense that the reduction results are the operands of the += chain (one reduction per bin with the right summand is proved, the chain of float additions over a symbolic number of bins is not)',
             'numeric value of the scaled coefficients (Eigen *= is recorded, not computed); sums of merged / predicted coefficients are exact only as uninterpreted IEEE terms',
             'nano::find for multi-label values (detail::hash over the row) stays an assumed contract',
             'native replay only for the dtree groups() finding (replay/C10_replay.cpp); other counterexamples would be (value, threshold, index) tuples',
@@ -742,6 +767,9 @@ def build(tier):
             'dtree do_fit: stump_wlearner_t::fit either fails or stores a feature, a threshold and a 2-row tables tensor; its split() has 2 groups; append(tables, t) adds t as the last row and keeps the others; std::vector / std::deque (FIFO, below max_size()) abstracted to the ghost pair and the caches that link its members (queue invariant by assume-guarantee: every pushed cache refers to the node appended just before, asserted); registered parameter domains (max_depth, min_split in [1, 10]); default member initialisers of cache_t (m_depth 0, m_parent 0) are the zero struct, those of dtree_node_t are pinned by a static_assert',
             'std::remove_if keeps exactly the elements for which the predicate is false, in order, at positions not after their old ones; vector::erase(first, end()) truncates at first',
             'single_feature_wlearner_t::vector(k) is m_tables.vector(k), tables() is m_tables (inline accessors in single.h); feature() is extracted',
+            'rss_smt (back end B): double treated as real; finite sums are linear and determined by their summand (the rss is opened at one generic output); accumulator_t accessors x0/x1/x2/r1/rx/r2 are opaque inputs (what they hold: accum.h); hinge m_beta0 is the zero array (checked syntactically: only declared, constructed, zeroed in the constructor, read by beta0()); ::nano::size(tdims()) is the number of outputs (<= 2^31), counts are in [0, 2^62]; both sides of a cut non-empty (fit.h) resp. the normal-equation denominator positive',
+            'sweeps: cache_t::m_score is not NaN when a sweep starts (default member initialiser no_fit_score(); preserved by every sweep: proved)',
+            'cluster(): tensors abstracted to their two leading extents (index checks) and, for cluster_id, the cells of two ghost bins in the row being built plus their values frozen at two ghost levels; any other cell is an arbitrary value (stable between two consecutive accesses of the same cell); Eigen row statements on the moment tensors are recorded for their indices only; m_r1.dims()[0] == bins() >= 1',
             'lambda captures by reference denote the enclosing function\'s variables of the same name (closure objects are modelled as explicit argument lists / capture structs)',
         ],
         'trusted': [],
